@@ -205,7 +205,120 @@ def update_removes_then_adds(ctx):
             ctx.check(a[0] == r0[0], "update:same-tag", "provenance", up.loc(i), "removes and adds the same tag", "tags differ: %s / %s" % (r0[0], a[0]))
         ctx.check(forward_iteration(up, L), "update:queue-order", "loop-shape", up.loc(L["stmt"]), "queue entries are applied in arrival order", "queue not traversed forward")
 
+def compile_keeps_nothing_between_calls(ctx, tag):
+    """'Each drop-in is a fresh copy of the base', 'refused as a whole, leaving nothing behind': the functions of the config layer that turn
+    a configuration into engine objects (everything under oomd/config/ reachable from compile / compileDropIn / parse) hold no state
+    that outlives a call - no static or thread_local local.  A scratch list kept per thread carries what a refused compile had already
+    built into the next ruleset compiled on that thread."""
+    P, cg = ctx.prog, ctx.cg
+    roots = [f.usr for q in ("Oomd::Config2::compile", "Oomd::Config2::compileDropIn", "Oomd::Config2::JsonConfigParser::parse") for f in P.fn(q)]
+    scope_ = [P.fns[u] for u in cg.reach(roots) if P.fns[u].file.startswith("oomd/config/")]
+    ctx.counters[tag + "_compile_scope_functions"] = len(scope_)
+    ctx.floor(tag + "_compile_scope_functions", 5, "functions of the config layer reachable from compile / compileDropIn / parse")
+    for f in sorted(scope_, key=lambda x: (x.file, x.line)):
+        ctx.use(f)
+        seen = set()
+        for i, n in enumerate(f.nodes):
+            if n.get("k") == "ref" and n.get("dk") == "static_local" and n["name"] not in seen:
+                seen.add(n["name"])
+                _, v = f.vardecl(n["decl"]) if n.get("decl") else (None, None)
+                ty = (v or {}).get("type") or n.get("type") or ""
+                if (v or {}).get("const") or ty.startswith("const ") or "constexpr" in ty:
+                    continue
+                ctx.violation("%s:compile-keeps-nothing-between-calls:%s:%s" % (tag, short(f), n["name"]), "storage_class (static / thread_local local in the compile scope)", f.loc(i),
+                              "%s keeps the local '%s' (%s) alive between calls (static / thread_local): whatever a call that returned early - a refused ruleset or "
+                              "drop-in - had put into it is still there for the next call, so the next ruleset compiled on that thread (the fresh copy of a drop-in's "
+                              "base) carries plugins of the refused one" % (f.pq, n["name"], ty[:60]))
+    ctx.ok(tag + ":compile-keeps-nothing-between-calls", "storage_class (static / thread_local local in the compile scope)", "-",
+           "%d functions of the config layer: no mutable static / thread_local local" % len(scope_))
+
+
+
+def compile_dropin_refuses_whole_unit(ctx):
+    """Config2::compileDropIn: every ruleset of a drop-in file looks its base up by name afresh, is a fresh compile of the base IR merged with
+    the compiled override, and ANY failure (unknown base, refused merge, failed compile) refuses the whole unit.  Shared by C12 (a
+    configuration is honoured or rejected as a whole) and C14 (the active set is exactly the valid files)."""
+    P = ctx.prog
+    # ------------------------------------------------ compileDropIn
+    cd = ctx.fn1("Oomd::Config2::compileDropIn")
+    Xc = Expander(P, cd)
+    # the per-drop-in "was a base found" state: the local written under the name-equality test inside the search over root.rulesets
+    outer_l = [l for l in loops(cd) if l["stmt"] is not None and "dropin.rulesets" in loop_header(cd, l)]
+    inner_l = [l for l in loops(cd) if l["stmt"] is not None and "root.rulesets" in loop_header(cd, l)]
+    fv = None
+    if len(outer_l) == 1 and len(inner_l) == 1:
+        f0 = Flow(P, cd, cg=ctx.cg)
+        cands = []
+        for i, n in enumerate(cd.nodes):
+            if n["k"] == "bin" and n.get("op") == "=" and cd.pos_of(i) is not None and inner_l[0]["stmt"] in list(cd.ancestors(i)):
+                l_ = cd.nodes[cd.strip(n["l"])]
+                if l_["k"] == "ref" and l_.get("dk") == "local" and any(p is True and ".name" in k and "==" in k for k, p in f0.guards(i)):
+                    cands.append(l_)
+        names = sorted({c["name"] for c in cands})
+        if len(names) == 1:
+            fv = names[0]
+            d_, v_ = cd.vardecl(cands[0]["decl"])
+            dpos = cd.pos_of(d_) if d_ is not None else None
+            per_iter = d_ is not None and outer_l[0]["stmt"] in list(cd.ancestors(d_))
+            if not per_iter:
+                # declared outside: then it has to be reset at the top of every iteration, before the search
+                resets = [w for w in local_writes(cd, fv, must=False) if cd.pos_of(w) is not None and outer_l[0]["stmt"] in list(cd.ancestors(w)) and inner_l[0]["stmt"] not in list(cd.ancestors(w))]
+                fr_ = iter_flow(ctx, cd, outer_l[0], {w: [("set", "reset")] for w in resets})
+                per_iter = bool(resets) and all(fr_.must(cd.nodes[inner_l[0]["stmt"]].get("range", inner_l[0]["stmt"]), "reset") for _ in [0]) if resets else False
+            ctx.check(per_iter, "dropin:target-lookup-is-per-ruleset", "scope / per-iteration reset", cd.loc(d_) if d_ is not None else cd.loc(),
+                      "the 'base found' state (%s) starts afresh for every ruleset of the drop-in" % fv,
+                      "the 'base found' state (%s) lives across the iterations over the drop-in's rulesets and is not reset: a ruleset whose target does not "
+                      "exist inherits the base found for the previous one, so a file naming an unknown ruleset is accepted and merged onto the wrong base" % fv)
+    # the search spelled std::find_if over root.rulesets: the iterator IS the 'base found' state, and it is per ruleset when the search
+    # is made inside the walk over the drop-in's rulesets
+    sws = [w for w in search_walks(cd) if w["dir"] == "forward" and w["container"].endswith("root.rulesets")]
+    if fv is None and len(sws) == 1 and len(outer_l) == 1:
+        sw = sws[0]
+        fv = sw["var"]
+        lam_ = P.closure_fn(sw["pred"]) if sw.get("pred") else None
+        byname = lam_ is not None and any(".name" in ret_text(lam_, r_) and "==" in ret_text(lam_, r_) for r_ in returns(lam_))
+        ctx.check(outer_l[0]["stmt"] in list(cd.ancestors(sw["call"])) and byname, "dropin:target-lookup-is-per-ruleset", "scope / per-iteration reset", cd.loc(sw["call"]),
+                  "the base is searched by name (std::find_if) afresh for every ruleset of the drop-in",
+                  "the search for the base is not made per ruleset of the drop-in, or not by name")
+    if fv is None:
+        ctx.broken("dropin:target-lookup-is-per-ruleset", "anchor", cd.loc(), "cannot identify the 'base found' state of the target search in compileDropIn")
+        fv = "?"
+    fc = Flow(P, cd, cg=ctx.cg, edge_tokens=lambda k, p: ["merge-refused"] if ("mergeWithDropIn(" in k and p is False) else (
+        ["compile-failed"] if (k in ("target", "compiled_drop", "compiled_prekill_hook_plugin") and p is False) else (
+            ["no-target"] if (k in (fv, "(%s != nullptr)" % fv, "(nullptr != %s)" % fv) and p is False) or (k in ("(%s == nullptr)" % fv, "(nullptr == %s)" % fv) and p is True)
+            or (re.match(r"^\((%s == .*\.c?end\(\)|.*\.c?end\(\) == %s)\)$" % (re.escape(fv), re.escape(fv)), k) is not None and p is True) else None)))
+    cr = cd.calls("compileRuleset")
+    tg = [i for i in cr if cd.text(cd.nodes[i]["args"][1]) == "false"]
+    dr = [i for i in cr if cd.text(cd.nodes[i]["args"][1]) == "true"]
+    ctx.check(len(tg) == 1 and (Xc(cd.nodes[tg[0]]["args"][0]) in ("elem(param:root.rulesets)", "*var:%s" % fv, "*%s" % fv) or
+                                Xc(cd.nodes[tg[0]]["args"][0]).startswith("*std::find_if(param:root.rulesets.begin(), param:root.rulesets.end(), ")), "dropin:target-is-fresh-base-copy", "provenance",
+              cd.loc(tg[0]) if tg else cd.loc(), "the target is a fresh compile of the base ruleset's IR", "target is not compileRuleset(base IR, false)")
+    ctx.check(len(dr) == 1 and Xc(cd.nodes[dr[0]]["args"][0]) == "elem(param:dropin.rulesets)", "dropin:compiled-from-dropin-ir", "provenance",
+              cd.loc(dr[0]) if dr else cd.loc(), "the override is compiled from the drop-in IR", "override is not compiled from the drop-in IR")
+    for i in tg:
+        g = fc.guards(i)
+        ctx.check(any(p is True and ".name" in k and "==" in k for k, p in g) or Xc(cd.nodes[i]["args"][0]) in ("*var:%s" % fv, "*%s" % fv), "dropin:target-by-name", "guarded_by", cd.loc(i),
+                  "the base is selected by name equality", "base selected without name comparison")
+    mgc = cd.calls("Ruleset::mergeWithDropIn")
+    ctx.check(len(mgc) == 1 and Xc(cd.nodes[mgc[0]]["recv"]).startswith("Oomd::Config2::compileRuleset(elem(param:root.rulesets), false")
+              or (len(mgc) == 1 and "target" in cd.text(cd.nodes[mgc[0]]["recv"])), "dropin:merge-into-copy", "provenance",
+              cd.loc(mgc[0]) if mgc else cd.loc(), "merge is applied to the fresh copy", "merge is not applied to the fresh base copy")
+    for kind, node, b, parts in fc.exits():
+        if kind != "return":
+            continue
+        t = ret_text(cd, node)
+        bad = any(any(x in s.may for x in ("merge-refused", "compile-failed", "no-target")) for s in parts.values())
+        if "nullopt" not in t:
+            ctx.check(not bad, "dropin:any-failure-refuses-whole-unit", "return_table", cd.loc(node),
+                      "a unit is returned only if every part compiled, merged and had a known target",
+                      "compileDropIn can return a unit although a ruleset was unknown, refused or failed to compile")
+    pushes = [i for i in cd.calls("emplace_back") if "ret.rulesets" in cd.text(cd.nodes[i].get("recv", -1))]
+    for i in pushes:
+        ctx.check(not fc.may(i, "merge-refused") and cd.text(cd.nodes[i]["args"][0]) == "target", "dropin:only-merged-targets", "never_after", cd.loc(i),
+                  "only successfully merged copies enter the unit", "a refused or unmerged ruleset enters the unit")
+
 def run(ctx):
+    compile_keeps_nothing_between_calls(ctx, "C13")
     dropin_unit_holds_merged_targets(ctx)
     dropins_leave_only_through_remove(ctx)
     from .C07 import engine_fire_rule
@@ -482,84 +595,7 @@ def run(ctx):
                       "merge refused under " + str(sorted(g, key=str)))
     # a refused merge must not have modified anything visible: target is discarded by the caller (checked below)
 
-    # ------------------------------------------------ compileDropIn
-    cd = ctx.fn1("Oomd::Config2::compileDropIn")
-    Xc = Expander(P, cd)
-    # the per-drop-in "was a base found" state: the local written under the name-equality test inside the search over root.rulesets
-    outer_l = [l for l in loops(cd) if l["stmt"] is not None and "dropin.rulesets" in loop_header(cd, l)]
-    inner_l = [l for l in loops(cd) if l["stmt"] is not None and "root.rulesets" in loop_header(cd, l)]
-    fv = None
-    if len(outer_l) == 1 and len(inner_l) == 1:
-        f0 = Flow(P, cd, cg=ctx.cg)
-        cands = []
-        for i, n in enumerate(cd.nodes):
-            if n["k"] == "bin" and n.get("op") == "=" and cd.pos_of(i) is not None and inner_l[0]["stmt"] in list(cd.ancestors(i)):
-                l_ = cd.nodes[cd.strip(n["l"])]
-                if l_["k"] == "ref" and l_.get("dk") == "local" and any(p is True and ".name" in k and "==" in k for k, p in f0.guards(i)):
-                    cands.append(l_)
-        names = sorted({c["name"] for c in cands})
-        if len(names) == 1:
-            fv = names[0]
-            d_, v_ = cd.vardecl(cands[0]["decl"])
-            dpos = cd.pos_of(d_) if d_ is not None else None
-            per_iter = d_ is not None and outer_l[0]["stmt"] in list(cd.ancestors(d_))
-            if not per_iter:
-                # declared outside: then it has to be reset at the top of every iteration, before the search
-                resets = [w for w in local_writes(cd, fv, must=False) if cd.pos_of(w) is not None and outer_l[0]["stmt"] in list(cd.ancestors(w)) and inner_l[0]["stmt"] not in list(cd.ancestors(w))]
-                fr_ = iter_flow(ctx, cd, outer_l[0], {w: [("set", "reset")] for w in resets})
-                per_iter = bool(resets) and all(fr_.must(cd.nodes[inner_l[0]["stmt"]].get("range", inner_l[0]["stmt"]), "reset") for _ in [0]) if resets else False
-            ctx.check(per_iter, "dropin:target-lookup-is-per-ruleset", "scope / per-iteration reset", cd.loc(d_) if d_ is not None else cd.loc(),
-                      "the 'base found' state (%s) starts afresh for every ruleset of the drop-in" % fv,
-                      "the 'base found' state (%s) lives across the iterations over the drop-in's rulesets and is not reset: a ruleset whose target does not "
-                      "exist inherits the base found for the previous one, so a file naming an unknown ruleset is accepted and merged onto the wrong base" % fv)
-    # the search spelled std::find_if over root.rulesets: the iterator IS the 'base found' state, and it is per ruleset when the search
-    # is made inside the walk over the drop-in's rulesets
-    sws = [w for w in search_walks(cd) if w["dir"] == "forward" and w["container"].endswith("root.rulesets")]
-    if fv is None and len(sws) == 1 and len(outer_l) == 1:
-        sw = sws[0]
-        fv = sw["var"]
-        lam_ = P.closure_fn(sw["pred"]) if sw.get("pred") else None
-        byname = lam_ is not None and any(".name" in ret_text(lam_, r_) and "==" in ret_text(lam_, r_) for r_ in returns(lam_))
-        ctx.check(outer_l[0]["stmt"] in list(cd.ancestors(sw["call"])) and byname, "dropin:target-lookup-is-per-ruleset", "scope / per-iteration reset", cd.loc(sw["call"]),
-                  "the base is searched by name (std::find_if) afresh for every ruleset of the drop-in",
-                  "the search for the base is not made per ruleset of the drop-in, or not by name")
-    if fv is None:
-        ctx.broken("dropin:target-lookup-is-per-ruleset", "anchor", cd.loc(), "cannot identify the 'base found' state of the target search in compileDropIn")
-        fv = "?"
-    fc = Flow(P, cd, cg=ctx.cg, edge_tokens=lambda k, p: ["merge-refused"] if ("mergeWithDropIn(" in k and p is False) else (
-        ["compile-failed"] if (k in ("target", "compiled_drop", "compiled_prekill_hook_plugin") and p is False) else (
-            ["no-target"] if (k in (fv, "(%s != nullptr)" % fv, "(nullptr != %s)" % fv) and p is False) or (k in ("(%s == nullptr)" % fv, "(nullptr == %s)" % fv) and p is True)
-            or (re.match(r"^\((%s == .*\.c?end\(\)|.*\.c?end\(\) == %s)\)$" % (re.escape(fv), re.escape(fv)), k) is not None and p is True) else None)))
-    cr = cd.calls("compileRuleset")
-    tg = [i for i in cr if cd.text(cd.nodes[i]["args"][1]) == "false"]
-    dr = [i for i in cr if cd.text(cd.nodes[i]["args"][1]) == "true"]
-    ctx.check(len(tg) == 1 and (Xc(cd.nodes[tg[0]]["args"][0]) in ("elem(param:root.rulesets)", "*var:%s" % fv, "*%s" % fv) or
-                                Xc(cd.nodes[tg[0]]["args"][0]).startswith("*std::find_if(param:root.rulesets.begin(), param:root.rulesets.end(), ")), "dropin:target-is-fresh-base-copy", "provenance",
-              cd.loc(tg[0]) if tg else cd.loc(), "the target is a fresh compile of the base ruleset's IR", "target is not compileRuleset(base IR, false)")
-    ctx.check(len(dr) == 1 and Xc(cd.nodes[dr[0]]["args"][0]) == "elem(param:dropin.rulesets)", "dropin:compiled-from-dropin-ir", "provenance",
-              cd.loc(dr[0]) if dr else cd.loc(), "the override is compiled from the drop-in IR", "override is not compiled from the drop-in IR")
-    for i in tg:
-        g = fc.guards(i)
-        ctx.check(any(p is True and ".name" in k and "==" in k for k, p in g) or Xc(cd.nodes[i]["args"][0]) in ("*var:%s" % fv, "*%s" % fv), "dropin:target-by-name", "guarded_by", cd.loc(i),
-                  "the base is selected by name equality", "base selected without name comparison")
-    mgc = cd.calls("Ruleset::mergeWithDropIn")
-    ctx.check(len(mgc) == 1 and Xc(cd.nodes[mgc[0]]["recv"]).startswith("Oomd::Config2::compileRuleset(elem(param:root.rulesets), false")
-              or (len(mgc) == 1 and "target" in cd.text(cd.nodes[mgc[0]]["recv"])), "dropin:merge-into-copy", "provenance",
-              cd.loc(mgc[0]) if mgc else cd.loc(), "merge is applied to the fresh copy", "merge is not applied to the fresh base copy")
-    for kind, node, b, parts in fc.exits():
-        if kind != "return":
-            continue
-        t = ret_text(cd, node)
-        bad = any(any(x in s.may for x in ("merge-refused", "compile-failed", "no-target")) for s in parts.values())
-        if "nullopt" not in t:
-            ctx.check(not bad, "dropin:any-failure-refuses-whole-unit", "return_table", cd.loc(node),
-                      "a unit is returned only if every part compiled, merged and had a known target",
-                      "compileDropIn can return a unit although a ruleset was unknown, refused or failed to compile")
-    pushes = [i for i in cd.calls("emplace_back") if "ret.rulesets" in cd.text(cd.nodes[i].get("recv", -1))]
-    for i in pushes:
-        ctx.check(not fc.may(i, "merge-refused") and cd.text(cd.nodes[i]["args"][0]) == "target", "dropin:only-merged-targets", "never_after", cd.loc(i),
-                  "only successfully merged copies enter the unit", "a refused or unmerged ruleset enters the unit")
-
+    compile_dropin_refuses_whole_unit(ctx)
     update_removes_then_adds(ctx)
     handoff_queue_fifo(ctx)
 
